@@ -95,3 +95,22 @@ Proof.
   intros H. destruct (read_full_flat n s1) as [A1 A2], (read_full_flat n s2) as [B1 B2].
   rewrite A1, A2, B1, B2, H. split; reflexivity.
 Qed.
+
+(* inversion of a read *)
+Lemma read_full_ok_inv n s b s' : read_full n s = (Ok b, s') ->
+  n <= lenN (concat s) /\ b = takeN n (concat s) /\ concat s' = dropN n (concat s).
+Proof.
+  intros E. destruct (read_full_flat n s) as [H1 H2]. rewrite E in H1, H2. cbn [fst snd] in *.
+  unfold flat_read in *. destruct (N.leb_spec n (lenN (concat s))) as [H|H]; cbn [fst snd] in *.
+  - injection H1 as ->. repeat split; assumption.
+  - discriminate.
+Qed.
+
+Lemma read_full_err_inv n s e s' : read_full n s = (Err e, s') ->
+  lenN (concat s) < n /\ e = eof_err (concat s) /\ concat s' = [].
+Proof.
+  intros E. destruct (read_full_flat n s) as [H1 H2]. rewrite E in H1, H2. cbn [fst snd] in *.
+  unfold flat_read in *. destruct (N.leb_spec n (lenN (concat s))) as [H|H]; cbn [fst snd] in *.
+  - discriminate.
+  - injection H1 as ->. repeat split; assumption.
+Qed.
